@@ -14,3 +14,15 @@ package keys
 //@ assumed
 //@ pure
 //@ ensures result == keyEq(p, key)
+
+// C18: a key decoded for a curve is a key on that curve, whatever the decode cache holds
+// (the cache is keyed by the encoded bytes only, and the same 33 bytes can be a valid point
+// on both supported curves). DecodeBytes is assumed to write the coordinates only.
+//@ prop C18
+//@ func (*PublicKey).DecodeBytes
+//@ assumed
+//@ modifies p.X, p.Y
+
+//@ func NewPublicKeyFromBytes
+//@ call .Get[ ensures[cached] result1 ==> result0 != nil   // the cache only ever receives non-nil keys (Add below)
+//@ ensures[curve] result1 == nil ==> result0 != nil && result0.Curve == curve
